@@ -292,7 +292,10 @@ def _ab_unit(which):
                     stepper = it.call(it.get_function("pde.backends.numba._solvers", "_make_adams_bashforth_stepper"), [env.solver, env.state_field], {})
                     qual, loopq = "_make_adams_bashforth_stepper", "_make_adams_bashforth_stepper.compiled_stepper"
                 factory_frame = stepper.env
-                sp = factory_frame.locals["state_prev"]
+                sp = factory_frame.locals.get("state_prev")
+                if not isinstance(sp, NDArr):
+                    from ..values import Unsupported
+                    raise Unsupported("Adams-Bashforth factory no longer keeps its history in a closure array `state_prev`")
                 if not first_call:
                     factory_frame.locals["init_state_prev"] = False
                     sp.assign(slice(None), prev0)
@@ -330,8 +333,8 @@ def _ab_unit(which):
                 steps = z3.If(q >= 1, q, z3.IntVal(1))
                 U.prove(f"{nm}.state==two_step_recursion", P, to_z3(u.read((0,))) == A(steps))
                 U.prove(f"{nm}.history_holds_previous_state", P, to_z3(sp.read((0,))) == A(steps - 1))
-                U.prove(f"{nm}.history_flag_cleared_for_later_calls", P, z3.BoolVal(ff.locals["init_state_prev"] is False))
-                U.prove(f"{nm}.history_buffer_kept_across_calls", P, z3.BoolVal(ff.locals["state_prev"] is sp or ff.locals["state_prev"].buf is sp.buf))
+                U.prove(f"{nm}.history_flag_cleared_for_later_calls", P, z3.BoolVal(ff.locals.get("init_state_prev", "missing") is False))
+                U.prove(f"{nm}.history_buffer_kept_across_calls", P, z3.BoolVal(isinstance(ff.locals.get("state_prev"), NDArr) and ff.locals["state_prev"].buf is sp.buf))
                 U.prove(f"{nm}.returns_t_start+steps*dt", P, to_z3(r) == t0 + z3.ToReal(steps) * env.dt)
                 U.prove(f"{nm}.info_steps", P, to_z3(env.info["steps"]) == env.steps0 + steps)
                 U.cover(f"{nm}.cover", P)
